@@ -92,7 +92,8 @@ type symSigner struct {
 	Unauth  string // "" / "none" | identity of a content: unauthenticatedAttributes [1] carrying a messageDigest of that content
 }
 
-var sidCerts = map[string][3]string{"A": {"k1", "i1", "s1"}, "B": {"k2", "i2", "s2"}, "At": {"k2", "i1", "s1"}, "C": {"k3", "i2", "s1"}}
+var sidCerts = map[string][3]string{"A": {"k1", "i1", "s1"}, "B": {"k2", "i2", "s2"}, "At": {"k2", "i1", "s1"}, "C": {"k3", "i2", "s1"},
+	"Ca": {"k3", "ca", "7f"}, "CaSub": {"k3", "ca", "7f"}} // Ca: issued by a separate CA (issuer != subject); signer id CaSub names its subject
 
 func certByName(n string) *x509.Certificate {
 	if n == "Ae" || n == "Ac" {
@@ -221,7 +222,11 @@ func buildSymBlob(ct, content string, signers []symSigner, certs string, wrap bo
 			// a signer info that is consistently SHA-1: digest algorithm, message digest and RSA signature
 			sig, dalg = rsaSignSHA1(s.SigKey, signed), asn1.ObjectIdentifier{1, 3, 14, 3, 2, 26}
 		}
-		parts := [][]byte{derInt(big.NewInt(1)), derTLV(0x30, c.RawIssuer, derInt(c.SerialNumber)), derAlg(dalg)}
+		issuerName := c.RawIssuer
+		if s.Sid == "CaSub" {
+			issuerName = c.RawSubject // names the certificate's subject where its issuer belongs
+		}
+		parts := [][]byte{derInt(big.NewInt(1)), derTLV(0x30, issuerName, derInt(c.SerialNumber)), derAlg(dalg)}
 		if hasAttrs {
 			parts = append(parts, derTLV(0xa0, attrs))
 		}
